@@ -1,8 +1,151 @@
 //! Engine C driver: runs a cargo-fuzz (libFuzzer) campaign for a target whose oracle lives in
-//! this crate, and folds the result into the property's report.
+//! this crate (`crate::fuzz`), and folds the result into the property's report.
 
 use crate::core::*;
+use serde_json::json;
+use std::path::PathBuf;
+use std::process::Command;
+
+fn fuzz_dir() -> PathBuf {
+    verif_dir().join("harness").join("fuzz")
+}
+
+fn cargo_fuzz(args: &[&str]) -> Command {
+    let mut c = Command::new("cargo");
+    // cargo-fuzz wants to be run from the crate that owns the `fuzz/` directory
+    c.arg("+nightly").arg("fuzz").arg(args[0]);
+    c.arg("--target-dir").arg(fuzz_dir().join("target"));
+    c.args(&args[1..]);
+    c.current_dir(verif_dir().join("harness"));
+    c.env("RUSTFLAGS", "--cfg bmwill_anemo_verif");
+    c.env("CARGO_NET_OFFLINE", "true");
+    c
+}
 
 pub fn campaign(ctx: &mut Ctx, target: &str, runs: u64) {
-    let _ = (ctx, target, runs);
+    if ctx.reports.iter().any(|r| r.violation.is_some()) {
+        return;
+    }
+    if let Ok(only) = std::env::var("VERIF_PART") {
+        if only != format!("fuzz:{target}") {
+            return;
+        }
+    }
+    let name = format!("fuzz:{target}");
+    let mut rep = PartReport {
+        name: name.clone(),
+        rule: format!("coverage-guided libFuzzer campaign (cargo-fuzz target `{target}`, -seed=VERIF_SEED, -runs={runs}, -len_control=0) on a fresh copy of a corpus generated from valid messages/certificates plus the committed regression corpus; the semantic oracle is compiled into the target; non-trivial = distinct final corpus entries that satisfy the target's rule (pass the preamble / start a DER sequence)"),
+        ..Default::default()
+    };
+    // 1. build (ASan, debug assertions on)
+    let out = cargo_fuzz(&["build", target]).output();
+    match out {
+        Ok(o) if o.status.success() => {}
+        Ok(o) => {
+            rep.inconclusive = Some(format!("cargo fuzz build {target} failed: {}", String::from_utf8_lossy(&o.stderr).lines().rev().take(8).collect::<Vec<_>>().join(" | ")));
+            ctx.push_report(rep);
+            return;
+        }
+        Err(e) => {
+            rep.inconclusive = Some(format!("cargo fuzz not runnable: {e}"));
+            ctx.push_report(rep);
+            return;
+        }
+    }
+    // 2. fresh corpus
+    let work = verif_dir().join("out").join("fuzz").join(format!("{target}-{}", ctx.seed));
+    let _ = std::fs::remove_dir_all(&work);
+    let corpus = work.join("corpus");
+    let artifacts = work.join("artifacts");
+    std::fs::create_dir_all(&corpus).unwrap();
+    std::fs::create_dir_all(&artifacts).unwrap();
+    for (i, s) in crate::fuzz::seed_corpus(target).into_iter().enumerate() {
+        let _ = std::fs::write(corpus.join(format!("seed-{i:03}")), s);
+    }
+    let regress = fuzz_dir().join("regress").join(target);
+    if let Ok(rd) = std::fs::read_dir(&regress) {
+        for e in rd.flatten() {
+            let _ = std::fs::copy(e.path(), corpus.join(format!("regress-{}", e.file_name().to_string_lossy())));
+        }
+    }
+    let dict = fuzz_dir().join("dict").join(if target == "cert_verify" { "der.dict" } else { "wire.dict" });
+    // 3. run
+    let t0 = std::time::Instant::now();
+    let out = cargo_fuzz(&["run", target, corpus.to_str().unwrap(), "--"])
+        .arg(format!("-seed={}", (ctx.seed % 0xffff_fffe) + 1))
+        .arg(format!("-runs={runs}"))
+        .arg("-len_control=0")
+        .arg("-max_len=4096")
+        .arg("-timeout=20")
+        .arg("-rss_limit_mb=4096")
+        .arg(format!("-dict={}", dict.display()))
+        .arg(format!("-artifact_prefix={}/", artifacts.display()))
+        .output();
+    let (ok, stderr) = match out {
+        Ok(o) => (o.status.success(), String::from_utf8_lossy(&o.stderr).into_owned()),
+        Err(e) => (false, e.to_string()),
+    };
+    let execs = stderr.lines().rev().find_map(|l| l.strip_prefix("Done ").and_then(|r| r.split_whitespace().next()).and_then(|n| n.parse::<u64>().ok()));
+    let cov = stderr.lines().rev().find_map(|l| l.split("cov: ").nth(1).and_then(|r| r.split_whitespace().next()).and_then(|n| n.parse::<u64>().ok()));
+    rep.evaluations = execs.unwrap_or(0);
+    // 4. artifacts = violations (or crashes)
+    let mut crash = None;
+    if let Ok(rd) = std::fs::read_dir(&artifacts) {
+        for e in rd.flatten() {
+            crash = Some(e.path());
+            break;
+        }
+    }
+    // distinct non-trivial = final corpus entries satisfying the rule
+    if let Ok(rd) = std::fs::read_dir(&corpus) {
+        for e in rd.flatten() {
+            if let Ok(b) = std::fs::read(e.path()) {
+                if crate::fuzz::nontrivial(target, &b) {
+                    rep.nontrivial.insert(fingerprint(&b));
+                    if rep.samples.len() < 3 {
+                        rep.samples.push(json!({"corpus_entry_hex": hex::encode(&b[..b.len().min(96)]), "len": b.len()}));
+                    }
+                }
+            }
+        }
+    }
+    rep.labels.insert(format!("coverage-edges={}", cov.unwrap_or(0)), 1);
+    rep.labels.insert(format!("campaign-wall-s={}", t0.elapsed().as_secs()), 1);
+    if let Some(path) = crash {
+        let bytes = std::fs::read(&path).unwrap_or_default();
+        // re-run the oracle without libFuzzer to get the message (and to tell crashes from violations)
+        let verdict = std::panic::catch_unwind(|| crate::fuzz::run_target(target, &bytes));
+        let (key, msg) = match verdict {
+            Ok(Some(Err(m))) => (m.split(':').take(2).collect::<Vec<_>>().join(":"), m),
+            Ok(_) => (format!("fuzz:{target}:crash-not-reproduced-in-process"), format!("libFuzzer saved {} but the oracle passes in-process (sanitizer finding or timeout?); stderr tail: {}", path.display(), stderr.lines().rev().take(6).collect::<Vec<_>>().join(" | "))),
+            Err(_) => {
+                let recs = crate::panics::take_thread();
+                match recs.last() {
+                    Some(p) => (p.key(), p.describe()),
+                    None => (format!("fuzz:{target}:panic"), "panic in target".into()),
+                }
+            }
+        };
+        rep.violation = Some(Violation { part: name.clone(), key, msg, case: json!({"bytes": hex::encode(&bytes)}) });
+    } else if !ok {
+        rep.inconclusive = Some(format!("fuzz run ended abnormally without an artifact: {}", stderr.lines().rev().take(6).collect::<Vec<_>>().join(" | ")));
+    } else if execs.is_none() {
+        rep.inconclusive = Some("could not read the number of executions from libFuzzer's output".into());
+    }
+    ctx.push_report(rep);
+}
+
+/// `vcheck replay` for fuzz artifacts wrapped as JSON {"bytes": hex}.
+pub fn replay(target: &str, case: &serde_json::Value) -> Result<(), (String, String, u32)> {
+    let bytes = case["bytes"].as_str().and_then(|s| hex::decode(s).ok()).ok_or(("replay:decode".to_string(), "no bytes".to_string(), 0))?;
+    match std::panic::catch_unwind(|| crate::fuzz::run_target(target, &bytes)) {
+        Ok(Some(Ok(()))) => Ok(()),
+        Ok(Some(Err(m))) => Err((m.split(':').take(2).collect::<Vec<_>>().join(":"), m, 1)),
+        Ok(None) => Err(("replay:unknown-target".into(), target.into(), 0)),
+        Err(_) => {
+            let recs = crate::panics::take_thread();
+            let p = recs.last();
+            Err((p.map(|p| p.key()).unwrap_or_default(), p.map(|p| p.describe()).unwrap_or_default(), 1))
+        }
+    }
 }
